@@ -127,3 +127,204 @@ Proof.
   end.
   all: cbn; try rewrite list_update_length; try (split; [reflexivity|lia]).
 Qed.
+
+(** ** C03: bindings *)
+
+Definition local_get (st : state) (a : nat) (x : str) : option value :=
+  match nth_error (frames st) a with
+  | Some fr => alist_get (f_defs fr) x
+  | None => None
+  end.
+
+Definition parent_of (st : state) (a : nat) : option (option nat) :=
+  option_map f_parent (nth_error (frames st) a).
+
+(** lookup is: find the innermost frame of the chain that binds x, read it there *)
+Lemma env_get_fuel_defining : forall fuel fs a x,
+  env_get_fuel fuel fs a x =
+  match defining_frame_fuel fuel fs a x with
+  | Some d => match nth_error fs d with Some fr => alist_get (f_defs fr) x | None => None end
+  | None => None
+  end.
+Proof.
+  induction fuel as [|f IH]; intros fs a x; cbn; [reflexivity|].
+  destruct (nth_error fs a) as [fr|] eqn:E; [|reflexivity].
+  destruct (alist_get (f_defs fr) x) as [v|] eqn:G.
+  - rewrite E. now rewrite G.
+  - destruct (f_parent fr); [apply IH|reflexivity].
+Qed.
+
+Lemma env_get_defining : forall st a x,
+  env_get st a x = match defining_frame st a x with Some d => local_get st d x | None => None end.
+Proof. intros. unfold env_get, defining_frame, local_get. apply env_get_fuel_defining. Qed.
+
+Lemma defining_frame_fuel_binds : forall fuel fs a x d,
+  defining_frame_fuel fuel fs a x = Some d ->
+  exists fr v, nth_error fs d = Some fr /\ alist_get (f_defs fr) x = Some v.
+Proof.
+  induction fuel as [|f IH]; intros fs a x d H; cbn in H; [discriminate|].
+  destruct (nth_error fs a) as [fr|] eqn:E; [|discriminate].
+  destruct (alist_get (f_defs fr) x) as [v|] eqn:G.
+  - injection H as <-. eauto.
+  - destruct (f_parent fr); [eapply IH; eassumption|discriminate].
+Qed.
+
+Lemma alist_get_set_isSome : forall {A} (l : list (str * A)) x v y,
+  alist_get l x <> None ->
+  (alist_get (alist_set l x v) y = None <-> alist_get l y = None).
+Proof.
+  intros A l x v y Hx. destruct (str_eqb x y) eqn:E.
+  - apply str_eqb_eq in E. subst y. rewrite alist_get_set_same. split; [discriminate|]. intro; contradiction.
+  - apply str_eqb_neq in E. rewrite alist_get_set_other by assumption. tauto.
+Qed.
+
+(** assigning an existing binding changes neither the shape of any frame chain nor which
+    names a frame binds *)
+Lemma defining_frame_fuel_update : forall fuel fs d fr x v a y,
+  nth_error fs d = Some fr -> alist_get (f_defs fr) x <> None ->
+  defining_frame_fuel fuel (list_update fs d {| f_parent := f_parent fr; f_defs := alist_set (f_defs fr) x v |}) a y
+  = defining_frame_fuel fuel fs a y.
+Proof.
+  induction fuel as [|f IH]; intros fs d fr x v a y Hd Hx; cbn; [reflexivity|].
+  destruct (Nat.eq_dec d a) as [->|Hne].
+  - rewrite nth_error_update_same by (apply nth_error_Some; congruence). rewrite Hd. cbn.
+    destruct (alist_get (alist_set (f_defs fr) x v) y) eqn:G1; destruct (alist_get (f_defs fr) y) eqn:G2;
+      try reflexivity.
+    + exfalso. apply (alist_get_set_isSome (f_defs fr) x v y Hx) in G2. congruence.
+    + exfalso. apply (alist_get_set_isSome (f_defs fr) x v y Hx) in G1. congruence.
+    + destruct (f_parent fr) as [pp|] eqn:EP; [|reflexivity]. rewrite <- EP. now apply IH.
+  - rewrite nth_error_update_other by assumption.
+    destruct (nth_error fs a) as [fa|]; [|reflexivity].
+    destruct (alist_get (f_defs fa) y); [reflexivity|].
+    destruct (f_parent fa); [now apply IH|reflexivity].
+Qed.
+
+Theorem set_locality : forall st env x v st',
+  env_set st env x v = Some st' ->
+  exists d, defining_frame st env x = Some d /\
+    local_get st' d x = Some v /\
+    (forall b y, (b, y) <> (d, x) -> local_get st' b y = local_get st b y) /\
+    (forall b, parent_of st' b = parent_of st b) /\
+    (forall a y, defining_frame st' a y = defining_frame st a y) /\
+    vectors st' = vectors st /\ out st' = out st /\ ticks st' = ticks st.
+Proof.
+  intros st env x v st' H. unfold env_set in H.
+  destruct (defining_frame st env x) as [d|] eqn:ED; [|discriminate]. injection H as <-.
+  exists d. split; [reflexivity|].
+  destruct (defining_frame_fuel_binds _ _ _ _ _ ED) as [fr [w [Hfr Hw]]].
+  assert (Hlt : d < length (frames st)) by (apply nth_error_Some; congruence).
+  unfold env_define. rewrite Hfr.
+  repeat split.
+  - unfold local_get. cbn. rewrite nth_error_update_same by assumption. cbn. apply alist_get_set_same.
+  - intros b y Hne. unfold local_get. cbn.
+    destruct (Nat.eq_dec d b) as [->|Hdb].
+    + rewrite nth_error_update_same by assumption. rewrite Hfr. cbn.
+      apply alist_get_set_other. intro. subst. now apply Hne.
+    + now rewrite nth_error_update_other.
+  - intros b. unfold parent_of. cbn.
+    destruct (Nat.eq_dec d b) as [->|Hdb].
+    + rewrite nth_error_update_same by assumption. now rewrite Hfr.
+    + now rewrite nth_error_update_other.
+  - intros a y. unfold defining_frame. cbn [frames set_frames]. rewrite list_update_length.
+    apply defining_frame_fuel_update; [assumption|congruence].
+Qed.
+
+(** an assignment made through one environment is seen through another exactly when both
+    chains reach the same defining frame for the name *)
+Theorem share_iff_same_frame : forall st e1 e2 x v st',
+  env_set st e1 x v = Some st' ->
+  (defining_frame st e2 x = defining_frame st e1 x -> env_get st' e2 x = Some v) /\
+  (defining_frame st e2 x <> defining_frame st e1 x -> env_get st' e2 x = env_get st e2 x).
+Proof.
+  intros st e1 e2 x v st' H.
+  destruct (set_locality _ _ _ _ _ H) as [d [Hd [Hv [Hother [_ [Hdef _]]]]]].
+  rewrite !env_get_defining, Hdef, Hd. split; intro HH.
+  - rewrite HH. exact Hv.
+  - destruct (defining_frame st e2 x) as [d2|] eqn:E2; [|reflexivity].
+    apply Hother. intro Hc. injection Hc as ->. now apply HH.
+Qed.
+
+(** other names are never affected *)
+Theorem set_other_name : forall st e1 e2 x y v st',
+  env_set st e1 x v = Some st' -> x <> y -> env_get st' e2 y = env_get st e2 y.
+Proof.
+  intros st e1 e2 x y v st' H Hne.
+  destruct (set_locality _ _ _ _ _ H) as [d [Hd [Hv [Hother [_ [Hdef _]]]]]].
+  rewrite !env_get_defining, Hdef. destruct (defining_frame st e2 y) as [d2|]; [|reflexivity].
+  apply Hother. intro Hc. injection Hc as _ Hc. congruence.
+Qed.
+
+(** an unbound name cannot be assigned, and the failed attempt changes nothing *)
+Theorem set_unbound : forall st env x v, env_set st env x v = None <-> env_get st env x = None.
+Proof.
+  intros. unfold env_set. rewrite env_get_defining.
+  destruct (defining_frame st env x) as [d|] eqn:E.
+  - split; [discriminate|]. intro H.
+    destruct (defining_frame_fuel_binds _ _ _ _ _ E) as [fr [w [Hfr Hw]]].
+    unfold local_get in H. rewrite Hfr, Hw in H. discriminate.
+  - tauto.
+Qed.
+
+(** every procedure call binds its parameters in a frame that did not exist before *)
+Theorem call_fresh_frame : forall st closure,
+  nth_error (frames st) (fst (alloc_frame st (Some closure))) = None /\
+  parent_of (snd (alloc_frame st (Some closure))) (fst (alloc_frame st (Some closure))) = Some (Some closure) /\
+  (forall b, b < length (frames st) ->
+     nth_error (frames (snd (alloc_frame st (Some closure)))) b = nth_error (frames st) b).
+Proof.
+  intros. unfold alloc_frame, parent_of. cbn. repeat split.
+  - apply nth_error_None. lia.
+  - rewrite nth_error_app2 by lia. rewrite Nat.sub_diag. reflexivity.
+  - intros b Hb. now rewrite nth_error_app1.
+Qed.
+
+(** ** C03: vectors *)
+
+Definition n_vector_set : str := s [118;101;99;116;111;114;45;115;101;116;33]%Z.
+Definition n_vector_ref : str := s [118;101;99;116;111;114;45;114;101;102]%Z.
+Definition n_vector : str := s [118;101;99;116;111;114]%Z.
+Definition n_make_vector : str := s [109;97;107;101;45;118;101;99;116;111;114]%Z.
+
+(** vector-set! changes exactly one cell of exactly the addressed vector, and nothing else *)
+Theorem vector_set_locality : forall st m a k obj r st',
+  builtin_call n_vector_set [VVec m a; VNum (NInt k); obj] st = (r, st') ->
+  match nth_error (vectors st) a with
+  | Some cells =>
+      if negb m then r = Err RequiresMutable None /\ st' = st
+      else if ((k <? 0) || (Z.of_nat (length cells) <=? k))%Z
+           then r = Err VectorIndexOutOfBounds None /\ st' = st
+           else r = Ok VVoid /\ frames st' = frames st /\ out st' = out st /\ ticks st' = ticks st /\
+                vectors st' = list_update (vectors st) a (list_update cells (Z.to_nat k) obj)
+  | None => if negb m then r = Err RequiresMutable None /\ st' = st else st' = st
+  end.
+Proof.
+  intros st m a k obj r st' H. unfold builtin_call in H. cbn in H.
+  destruct m; cbn in *.
+  - destruct (nth_error (vectors st) a) as [cells|] eqn:E.
+    + destruct ((k <? 0) || (Z.of_nat (length cells) <=? k))%Z; injection H as <- <-; auto 10.
+    + injection H as <- <-. reflexivity.
+  - destruct (nth_error (vectors st) a); injection H as <- <-; auto.
+Qed.
+
+(** a literal vector rejects mutation whatever the index and the value *)
+Theorem literal_vector_immutable : forall st a k obj,
+  builtin_call n_vector_set [VVec false a; VNum (NInt k); obj] st = (Err RequiresMutable None, st).
+Proof. intros. reflexivity. Qed.
+
+(** reading a cell returns the stored value itself: a vector stored in a vector, a list or a
+    variable is the same object (same address) when read back *)
+Theorem vector_ref_returns_stored : forall st m a k cells v,
+  nth_error (vectors st) a = Some cells -> (0 <= k)%Z -> nth_error cells (Z.to_nat k) = Some v ->
+  builtin_call n_vector_ref [VVec m a; VNum (NInt k)] st = (Ok v, st).
+Proof.
+  intros st m a k cells v H1 Hk H2. unfold builtin_call. cbn. rewrite H1.
+  destruct (k <? 0)%Z eqn:E; [apply Z.ltb_lt in E; lia|]. now rewrite H2.
+Qed.
+
+(** vector and make-vector return a vector that did not exist before; existing vectors keep
+    their contents *)
+Theorem vector_alloc_fresh : forall st args,
+  builtin_call n_vector args st =
+    (Ok (VVec true (length (vectors st))), set_vectors st (vectors st ++ [args])).
+Proof. intros. reflexivity. Qed.
+
